@@ -185,7 +185,8 @@ RECURSIVE GuardNF(_)
 GuardNF(g) ==
   IF IsS(g) THEN [type |-> g.s, params |-> Null, kids |-> <<>>, comp |-> FALSE]
   ELSE LET kids == GuardKidsCfg(g) IN
-       [type |-> G(g, "type").s, params |-> G(g, "params"),
+       \* (the params of a composite guard only spell its operands - children / params.guards / params.guard)
+       [type |-> G(g, "type").s, params |-> IF G(g, "type").s \in Composite THEN Null ELSE G(g, "params"),
         kids |-> [i \in 1..Len(kids.vs) |-> GuardNF(kids.vs[i])], comp |-> G(g, "type").s \in Composite]
 NoGuard == [type |-> "", params |-> Null, kids |-> <<>>, comp |-> FALSE]
 
